@@ -57,6 +57,7 @@ _ALONE = ["outside", "size", "overlap", "multiplicity", "bin-gap", "n_bins",
 PROBES = [f"only:{c}" for c in _ALONE] + [f"saw:{c}" for c in CLAUSES] + [
     "one_dim_matches_other_not", "torn_log_rejected", "benign_edit_accepted",
     "legal_edit_accepted", "instance_from_setup_section",
+    "shared_space_history",
     "corrupted_but_still_feasible", "store:log", "store:text", "store:array",
     "dtype:int8", "dtype:int16", "dtype:int32"]
 HARD_CAP_S = 120.0
@@ -78,9 +79,11 @@ def warmup() -> None:
 
 # ------------------------------------------------------------------ generation
 
-def generate(rng: random.Random, batch: dict) -> dict:
-    inst = packgen.gen_instance(rng, big=batch.get("big", False),
-                                shipped_p=0.06, single_digit_bias=0.45)
+def generate(rng: random.Random, batch: dict, depth: int = 0,
+             inst: dict | None = None) -> dict:
+    if inst is None:
+        inst = packgen.gen_instance(rng, big=batch.get("big", False),
+                                    shipped_p=0.06, single_digit_bias=0.45)
     items = packgen.resolve_items(inst)
     base = [i + 1 for i, it in enumerate(items) for _ in range(it[2])]
     rng.shuffle(base)
@@ -93,7 +96,7 @@ def generate(rng: random.Random, batch: dict) -> dict:
             "seed": rng.getrandbits(32)})
     store = rng.choice(["log", "text", "array", "array"])
     faults: list = []
-    if batch.get("faults", False):
+    if batch.get("faults", False) and (depth == 0 or rng.random() < 0.6):
         n_f = rng.choice([1, 1, 1, 1, 2, 2, 3, 4])
         if store == "array":
             pool = ARRAY_FAULTS
@@ -110,8 +113,17 @@ def generate(rng: random.Random, batch: dict) -> dict:
                            "seed": rng.getrandbits(32)})
     use_setup = ("resource" in inst) and store == "log" \
         and rng.random() < 0.6
-    return {"inst": inst, "x": x, "encoder": encoder, "legal_edits": legal,
-            "store": store, "faults": faults, "inst_from_setup": use_setup}
+    doc = {"inst": inst, "x": x, "encoder": encoder, "legal_edits": legal,
+           "store": store, "faults": faults, "inst_from_setup": use_setup}
+    if depth == 0 and rng.random() < 0.4:
+        # further store/recover cycles on the same instance and space
+        more = []
+        for _ in range(rng.choice([1, 1, 2, 4])):
+            sub = generate(rng, batch, depth=1, inst=inst)
+            sub.pop("inst")
+            more.append(sub)
+        doc["more"] = more
+    return doc
 
 
 def directed(tier: str) -> list:
@@ -429,11 +441,34 @@ def execute(doc: dict) -> dict:
     info = np.iinfo(inst.dtype)
     lo, hi = int(info.min), int(info.max)
     core.bump(res["probes"], f"dtype:{inst.dtype}")
-    store = doc["store"]
+    cases = [doc] + list(doc.get("more", []))
+    any_fired = False
+    for ci, case in enumerate(cases):
+        # all cases of a scenario share the instance and the PackingSpace:
+        # validations after a rejected/accepted predecessor are histories
+        out = _run_case(doc, case, ci, res, inst, space, W, H, items,
+                        n_items, lo, hi)
+        if res["violation"] is not None:
+            if ci > 0:
+                res["violation"]["case"] = ci
+            break
+        any_fired = any_fired or bool(out)
+    if len(cases) > 1:
+        core.bump(res["probes"], "shared_space_history", len(cases) - 1)
+    res["nontrivial"] = any_fired
+    return res
+
+
+def _run_case(doc, case, ci, res, inst, space, W, H, items, n_items, lo, hi):
+    import warnings
+
+    import numpy as np
+    from moptipyapps.binpacking2d.packing import Packing
+    store = case["store"]
     core.bump(res["probes"], f"store:{store}")
 
-    rows, n_bins = orc.bl_decode(W, H, items, doc["x"], int(doc["encoder"]))
-    for edit in doc["legal_edits"]:
+    rows, n_bins = orc.bl_decode(W, H, items, case["x"], int(case["encoder"]))
+    for edit in case["legal_edits"]:
         rows, n_bins = apply_legal(rows, n_bins, W, H, edit)
     if orc.infeasibility(W, H, items, rows, n_bins):
         raise AssertionError("base packing is not feasible: harness bug")
@@ -484,11 +519,11 @@ def execute(doc: dict) -> dict:
     y0 = make_packing(rows, n_bins)
     # the undamaged packing must always be accepted and round-trip
     judge_array(y0, [], "validate-base")
-    if doc["legal_edits"] and res["violation"] is None:
+    if case["legal_edits"] and res["violation"] is None:
         core.bump(res["probes"], "legal_edit_accepted")
     if res["violation"] is not None:
-        return res
-    faults = doc["faults"]
+        return False
+    faults = case["faults"]
     fired = []
 
     if store == "array":
@@ -544,7 +579,7 @@ def execute(doc: dict) -> dict:
                 f"from_str(to_str(y)) != y: W={W} H={H} items={items} "
                 f"rows={rows} n_bins={n_bins}; got "
                 f"{back if isinstance(back, str) else [list(map(int, q)) for q in back]}")
-            return res
+            return False
         if store == "text":
             text = text0
             span = (0, len(text))
@@ -562,7 +597,8 @@ def execute(doc: dict) -> dict:
             wd = os.path.join(core.WORK, "tmp")
             os.makedirs(wd, exist_ok=True)
             path = os.path.join(
-                wd, f"c04-{os.getpid()}-{core.digest(doc)[:16]}.txt")
+                wd, "c04-%d-%s.txt" % (os.getpid(), core.digest(
+                    [doc["inst"], case, ci])[:16]))
             name = doc["inst"].get("resource", "sim")
             _write_log(path, space, y0, name)
             with open(path, encoding="utf-8") as fh:
@@ -595,7 +631,7 @@ def execute(doc: dict) -> dict:
             with open(path, "w", encoding="utf-8", newline="") as fh:
                 fh.write(text)
             how = "from_log"
-            use_setup = bool(doc.get("inst_from_setup")) \
+            use_setup = bool(case.get("inst_from_setup")) \
                 and "resource" in doc["inst"]
             if use_setup:
                 core.bump(res["probes"], "instance_from_setup_section")
@@ -661,14 +697,26 @@ def execute(doc: dict) -> dict:
                 core.bump(res["probes"], "benign_edit_accepted")
             elif fired:
                 core.bump(res["probes"], "corrupted_but_still_feasible")
-    res["sim_time"] = 1.0
-    res["nontrivial"] = bool(fired)
-    return res
+    res["sim_time"] += 1.0
+    return bool(fired)
 
 
 # ------------------------------------------------------------------ shrinking
 
 def reductions(doc: dict):
+    if doc.get("more"):
+        for cand in core.list_deletions(doc["more"], 0):
+            yield {**doc, "more": cand}
+        # promote a later case to be the only one
+        for sub in doc["more"]:
+            yield {**{k: v for k, v in doc.items() if k != "more"}, **sub}
+        for mi, sub in enumerate(doc["more"]):
+            for key in ("faults", "legal_edits"):
+                if sub[key]:
+                    for cand in core.list_deletions(sub[key], 0):
+                        more = list(doc["more"])
+                        more[mi] = {**sub, key: cand}
+                        yield {**doc, "more": more}
     for cand in core.list_deletions(doc["faults"], 0):
         yield {**doc, "faults": cand}
     for cand in core.list_deletions(doc["legal_edits"], 0):
